@@ -97,6 +97,10 @@ def finish(rep: Report) -> int:
     for o in rep.obs:
         if o.verdict != "failed":
             continue
+        if o.kind == "COVER":
+            # a failed vacuity guard is a defect of the contracts/engine, never a property violation (exit 3)
+            rep.errors.append(f"vacuity guard failed: {o.oid}: {o.info}")
+            continue
         key = o.oid
         kf = is_known(rep.prop, key, known)
         if kf:
